@@ -1008,6 +1008,7 @@ pub struct ObjFiber {
     pub(crate) return_value: Value,
     pub(crate) exc_handlers: Vec<ExcHandler>,
     pub(crate) return_ip: Option<*const u8>,
+    pub(crate) return_handler_count: usize,
     pub(crate) error_ip: Option<*const u8>,
 }
 
@@ -1031,6 +1032,7 @@ impl ObjFiber {
             return_value: Value::None,
             exc_handlers: Vec::new(),
             return_ip: None,
+            return_handler_count: 0,
             error_ip: None,
         }
     }
